@@ -12,8 +12,9 @@ EXTENDS PSLexOps, Spell, TLC, Json
 CONSTANTS Dev,        \* tokenizer deviations in force (PSLexOps)
           PDev,       \* parser deviations in force:
                       \*   "StreamNullKw"  PDFStreamParser pushes the keyword `null` instead of the null object
-                      \*   "StreamTopRef"  PDFStreamParser: `n g R` outside any container raises ValueError, because
-                      \*                   the two integers were already flushed to the results
+                      \*   "StreamTopRef"  PDFStreamParser: `n g R` outside any container is read as the two integers n and g,
+                      \*                   because they were already handed out as results when R arrives (before the
+                      \*                   short-stack repair in /repo it raised ValueError)
           BufSizes    \* buffer sizes for which the token sequence must equal the reference
 
 \* ------------------------------------------------------------------ nodes
@@ -94,7 +95,7 @@ PTok(ps, tok, variant, pdev) ==
   ELSE IF KwIs(tok, <<82>>)                                                            \* R
     THEN IF Len(ps.curstack) < 2
          THEN IF variant = "doc" THEN ps
-              ELSE IF "StreamTopRef" \in pdev THEN [ps EXCEPT !.err = "ValueError"]
+              ELSE IF "StreamTopRef" \in pdev THEN ps      \* as coded: R is ignored, the two integers stay two objects
               ELSE \* intended: the two integers already handed out as results are the reference's operands
                    LET n == Len(ps.results) IN
                    IF ps.curstack = <<>> /\ n >= 2 /\ ps.results[n - 1].k = "int"
